@@ -48,8 +48,10 @@ def _update_case(job):
     (pat, cfgver, tags, tags_branch, scope, ignore, mode, arg, date, dry, idx) = job[:11]
     vcs_fault = job[11] if len(job) > 11 else None        # "fetch" / "ls_tags": the VCS command fails (remote present, fetching on)
     with drive.scratch_dir("c01") as d:
-        proj = project.Project(os.path.join(d, "p"), gitfile=(idx % 4 == 3))
-        fv = fakevcs.FakeVCS(os.path.join(d, "fake"))
+        # one case in seven is a Mercurial repository: `hg tags` prints the name padded to a column, then rev:node ("tip" first); tags of the branch come one per line
+        hg = idx % 7 == 3 and not vcs_fault and idx % 6 != 2
+        proj = project.Project(os.path.join(d, "p"), vcs="hg" if hg else "git", gitfile=(idx % 4 == 3 and not hg))
+        fv = fakevcs.FakeVCS(os.path.join(d, "fake"), "hg" if hg else "git")
         remote_mode = False
         if vcs_fault:
             fv.set(tags=tags, tags_branch=tags_branch, status="", remote="", branches="* main 1234abc [origin/main] msg\n", fail=[vcs_fault, "ls_tags_branch"] if vcs_fault == "ls_tags" else [vcs_fault])
@@ -59,6 +61,9 @@ def _update_case(job):
             remote_mode = True
             fv.set(tags=[], tags_remote=tags, tags_branch=tags_branch, status="", remote=["", "https://example.com/demo/repo.git\n"][idx // 6 % 2],
                    branches=["* main 1234abc [origin/main] msg\n", "* (HEAD detached at 1234abc) 1234abc msg\n  main 1234abc msg\n"][idx // 6 % 2])
+        elif hg:
+            rows = ["%-30s %5d:%s" % (t, len(tags) - q, "0a1b2c3d4e5f") for q, t in enumerate(["tip"] + list(tags))]
+            fv.set(tags=rows, tags_branch=tags_branch, status="", remote="")
         else:
             fv.set(tags=tags, tags_branch=tags_branch, status="", remote="", branches="")
         # the scope in force comes from the config file or - in two cases of five - from --tag-scope on the command line over a DIFFERENT configured scope
